@@ -3,6 +3,7 @@ package sym
 import (
 	"fmt"
 	"go/types"
+	"math/big"
 	"sort"
 	"strings"
 
@@ -34,6 +35,7 @@ type ObResult struct {
 	Verdict string // unsat | sat | unknown
 	Solver  string
 	Model   map[string]string
+	Full    map[string]string `json:",omitempty"`
 	Path    []int
 	Detail  string
 }
@@ -52,6 +54,7 @@ type Frame struct {
 	Result Value
 	// panic state while running defers
 	Panicking *goPanic
+	Cur       ssa.Instruction
 }
 
 type deferred struct {
@@ -96,6 +99,12 @@ type Exec struct {
 	errIDs        map[string]int
 	lenAxiom      map[int]bool
 	pow10Of       map[int]*smt.Term
+	iterN         int
+	wallN         int
+	frames        []*Frame
+	ForkSites     map[string]int
+	merge         *mergeState
+	constDone     int
 }
 
 type Config struct {
@@ -107,6 +116,8 @@ type Config struct {
 	TimeoutMs   int
 	Tier        string
 	NoFeasCheck bool
+	NoMerge     bool
+	FullModels  bool
 }
 
 func (c *Config) Bound(name string, def int) int {
@@ -131,8 +142,47 @@ func (x *Exec) Unsupported(format string, a ...interface{}) {
 
 // ---- decisions
 
+// syncConstAxioms gives every interned string constant its concrete meaning under the
+// uninterpreted string functions (length, decimal parse), so that constants reached
+// through ite terms are not left unconstrained.
+func (x *Exec) syncConstAxioms() {
+	for x.constDone < len(x.B.ConstL) {
+		s := x.B.ConstL[x.constDone]
+		x.constDone++
+		c := x.B.Consts[s]
+		B := x.B
+		ax := []*smt.Term{B.Eq(B.App("len", smt.SInt, c), B.Int(int64(len(s))))}
+		str := s
+		if str == "" {
+			str = "0"
+		}
+		d, ok := parseDecimalConst(str)
+		if s == "" {
+			// the raw empty string does not parse; NewDecFromString maps it to "0" first
+			ax = append(ax, B.Not(B.App("dec_ok", smt.SBool, c)), B.Not(B.App("bech32_ok", smt.SBool, c)))
+		} else if !ok {
+			ax = append(ax, B.Not(B.App("dec_ok", smt.SBool, c)))
+		} else {
+			mag := new(big.Rat).SetInt(d.coeff)
+			if d.exp >= 0 {
+				mag.Mul(mag, new(big.Rat).SetInt(pow10(d.exp)))
+			} else {
+				mag.Quo(mag, new(big.Rat).SetInt(pow10(-d.exp)))
+			}
+			ax = append(ax, B.App("dec_ok", smt.SBool, c), B.Eq(B.App("dec_form", smt.SInt, c), B.Int(int64(d.form))),
+				B.Eq(B.App("dec_neg", smt.SBool, c), B.Bool(d.neg)), B.Eq(B.App("dec_mag", smt.SReal, c), B.RatC(mag)),
+				B.Eq(B.App("dec_exp", smt.SInt, c), B.Int(int64(d.exp))),
+				B.Eq(B.App("dec_plain", smt.SBool, c), B.Bool(!strings.ContainsAny(s, "eE"))))
+		}
+		t := B.And(ax...)
+		x.PC = append(x.PC, t)
+		x.S.Assert(t)
+	}
+}
+
 // Assume adds c to the path condition; the path ends if it becomes infeasible.
 func (x *Exec) Assume(c *smt.Term, label string) {
+	x.syncConstAxioms()
 	if c.IsTrue() {
 		return
 	}
@@ -164,6 +214,10 @@ func (x *Exec) Branch(c *smt.Term) bool {
 	if c.IsFalse() {
 		return false
 	}
+	if x.merge != nil {
+		return x.mergeBranch(c)
+	}
+	x.syncConstAxioms()
 	if x.pos < len(x.prefix) {
 		d := x.prefix[x.pos]
 		x.pos++
@@ -196,14 +250,30 @@ func (x *Exec) Branch(c *smt.Term) bool {
 		x.feasUnknown++
 	}
 	x.Trace = append(x.Trace, Decision{Val: 1, N: 2, Fixed: false})
+	x.ForkSites[x.site()]++
 	x.Assume(c, "branch")
 	return true
+}
+
+// site names the innermost regen/harness source position being executed.
+func (x *Exec) site() string {
+	for i := len(x.frames) - 1; i >= 0; i-- {
+		fr := x.frames[i]
+		if fr.Cur != nil && fr.Cur.Pos().IsValid() {
+			p := x.P.Prog.Fset.Position(fr.Cur.Pos())
+			return fmt.Sprintf("%s:%d", p.Filename, p.Line)
+		}
+	}
+	return "?"
 }
 
 // Choose is an n-ary nondeterministic choice of the engine or a model (all alternatives explored).
 func (x *Exec) Choose(n int, label string) int {
 	if n <= 1 {
 		return 0
+	}
+	if x.merge != nil {
+		x.Unsupported("nondeterministic choice (%s) inside a merged pure callee", label)
 	}
 	if x.pos < len(x.prefix) {
 		d := x.prefix[x.pos]
@@ -213,6 +283,7 @@ func (x *Exec) Choose(n int, label string) int {
 	}
 	x.pos++
 	x.Trace = append(x.Trace, Decision{Val: 0, N: n, Fixed: false})
+	x.ForkSites["choose: "+label]++
 	return 0
 }
 
@@ -243,6 +314,7 @@ func (x *Exec) ConcretizeInt(t *smt.Term, lo, hi int, what string) int {
 
 // Assert emits the proof obligation pc => c.
 func (x *Exec) Assert(c *smt.Term, name string) {
+	x.syncConstAxioms()
 	if c.IsTrue() {
 		x.Obs = append(x.Obs, ObResult{Name: name, Verdict: "unsat", Solver: "simplifier"})
 		return
@@ -256,6 +328,9 @@ func (x *Exec) Assert(c *smt.Term, name string) {
 	ob := ObResult{Name: name, Verdict: res.String(), Solver: solver, Path: x.tracePath()}
 	if res == smt.Sat {
 		ob.Model = x.namedModel(vals)
+		if solver == x.S.P.Kind && x.Cfg.FullModels {
+			ob.Full = x.fullModel(neg)
+		}
 		ob.Detail = c.String()
 		if len(ob.Detail) > 2000 {
 			ob.Detail = ob.Detail[:2000] + "..."
@@ -293,6 +368,29 @@ func (x *Exec) modelTerms() []*smt.Term {
 	}
 	ts = append(ts, x.evalExtra...)
 	return ts
+}
+
+// fullModel evaluates every UF application and free constant (only used once a query is sat).
+func (x *Exec) fullModel(extra *smt.Term) map[string]string {
+	apps := x.B.Apps()
+	if len(apps) > 1500 {
+		apps = apps[:1500]
+	}
+	_, vals := x.S.CheckModel([]*smt.Term{extra}, apps)
+	out := map[string]string{}
+	for _, t := range apps {
+		if v, ok := vals[t.ID]; ok {
+			k := t.String()
+			if len(k) > 300 {
+				continue
+			}
+			out[k] = v
+		}
+	}
+	for i, s := range x.B.ConstL {
+		out[fmt.Sprintf("str%d", i)] = fmt.Sprintf("%q", s)
+	}
+	return out
 }
 
 func (x *Exec) namedModel(vals map[int]string) map[string]string {
@@ -378,6 +476,8 @@ func (x *Exec) CallFunction(fn *ssa.Function, args []Value, bind []Value) Value 
 	}
 	defer func() { x.depth-- }()
 	fr := &Frame{Fn: fn, Regs: make(map[ssa.Value]Value, 32), Visits: map[int]int{}}
+	x.frames = append(x.frames, fr)
+	defer func() { x.frames = x.frames[:len(x.frames)-1] }()
 	for i, p := range fn.Params {
 		if i < len(args) {
 			fr.Regs[p] = args[i]
@@ -440,6 +540,7 @@ func (x *Exec) runFrame(fr *Frame) (ret Value) {
 		for _, ins := range block.Instrs[nphi:] {
 			count++
 			x.Steps++
+			fr.Cur = ins
 			if x.Steps > x.Cfg.MaxSteps {
 				x.exit("unwind", "step budget exceeded")
 			}
